@@ -1,33 +1,37 @@
 (* C29 — Query admission never exceeds capacity, loses wakeups or starves users.
    Only the property theorems (closed by [exact]) and non-vacuity examples.
-   [qstep false] is the code as it is, [qstep true] the repaired variant (finding F-C29: nextQueryLocked
-   tests [active == max], AdjustCapacity never wakes a waiter).  One step = one critical section;
+   [qstep true] is the CURRENT code: nextQueryLocked tests [active >= max] (fix 7e41ac88) and AdjustCapacity
+   hands free slots to waiting queries (fix 2748241c).  [qstep false] is the variant BEFORE those fixes
+   (finding F-C29a/b); it appears only in the [_refuted] theorems, which record what was wrong, and in the
+   [_constant_capacity] ones, which record that the defect needed AdjustCapacity to show.
+   One step = one critical section;
    "all schedules" = all lists of steps that respect the callers' protocol ([qenabled]/[senabled]:
    Release by a holder, non-negative capacities and weights). *)
 From Coq Require Import ZArith List Bool.
-From SH Require Import Admission.Model Admission.ProofsQueue Admission.ProofsSem.
+From SH Require Import Admission.Model Admission.ProofsQueue Admission.ProofsQueue2 Admission.ProofsSem.
 Import ListNotations.
 Open Scope Z_scope.
 
 (* ------------------------------- round-robin queue ------------------------------- *)
 
-(* "the per-user round-robin queue never has more active queries than its capacity": in the repaired
-   queue every step in which an Acquire call is granted (fast path, wake-up on Release, hand-out on
-   AdjustCapacity) ends with active <= max — from ANY state, so also after capacity was lowered *)
+(* "the per-user round-robin queue never has more active queries than its capacity": in the current
+   code every step in which an Acquire call is granted (fast path, wake-up on Release, hand-out on
+   AdjustCapacity) ends with active <= max — from ANY state, for all schedules including capacity
+   changes, so also after the capacity was lowered below the number of active queries *)
 Theorem C29_grants_never_exceed_capacity :
   forall s op s' evs,
   qstep true s op = (s', evs) -> existsb is_grant evs = true -> q_active s' <= q_max s'.
 Proof. exact grants_within_capacity. Qed.
 
-(* ... the code as it is violates it once AdjustCapacity lowered the capacity below the number of
-   active queries (finding F-C29a; the witness is replayed on the real Queue by the harness) *)
+(* ... the variant before fix 7e41ac88 violated it once AdjustCapacity lowered the capacity below the
+   number of active queries (finding F-C29a; the harness replays the witness on the real Queue: "gone") *)
 Theorem C29_grants_never_exceed_capacity_refuted :
   exists s op, qreach false s /\ qenabled s op /\
     existsb is_grant (snd (qstep false s op)) = true /\
     q_max (fst (qstep false s op)) < q_active (fst (qstep false s op)).
 Proof. exact grants_exceed_capacity_refuted. Qed.
 
-(* same clause, for the code as it is and the repaired one alike: no step other than a capacity change
+(* same clause, for the current code and the pre-fix variant alike: no step other than a capacity change
    takes the queue from active <= max to active > max *)
 Theorem C29_active_le_max :
   forall fx s op,
@@ -35,21 +39,22 @@ Theorem C29_active_le_max :
   q_active (fst (qstep fx s op)) <= q_max (fst (qstep fx s op)) /\ q_max (fst (qstep fx s op)) = q_max s.
 Proof. exact active_le_max_step. Qed.
 
-(* ... hence with a constant capacity m the code as it is never exceeds it, for all schedules *)
+(* ... hence with a constant capacity even the pre-fix variant never exceeded it, for all schedules *)
 Theorem C29_active_le_max_constant_capacity :
   forall ops s, no_adjust ops = true -> q_active s <= q_max s ->
   q_active (fst (qrun false s ops)) <= q_max s /\ q_max (fst (qrun false s ops)) = q_max s.
 Proof. exact (active_le_max_run false). Qed.
 
-(* with a constant capacity the code as it is IS the repaired model (so every theorem about
-   [qstep true] below speaks about the real code whenever AdjustCapacity is not used) *)
+(* with a constant capacity the pre-fix variant and the current code are the same function: F-C29a/b
+   needed AdjustCapacity to show *)
 Theorem C29_constant_capacity_code_is_repaired_model :
   forall ops s, no_adjust ops = true -> q_active s <= q_max s ->
   qrun false s ops = qrun true s ops /\ (qvalid false s ops -> qvalid true s ops).
 Proof. exact qrun_false_true. Qed.
 
-(* "grants a waiting query whenever capacity frees": no reachable state (all states are quiescent: one
-   step = one critical section) has a waiting user next to a free slot *)
+(* "grants a waiting query whenever capacity frees": in the current code no reachable state (all states
+   are quiescent: one step = one critical section; all schedules, AdjustCapacity included) has a waiting
+   user next to a free slot *)
 Theorem C29_no_lost_wakeup :
   forall s, qreach true s -> q_users s <> [] -> q_max s <= q_active s.
 Proof. exact no_lost_wakeup. Qed.
@@ -60,7 +65,7 @@ Theorem C29_no_lost_wakeup_constant_capacity :
   q_users s <> [] -> q_max s <= q_active s.
 Proof. exact no_lost_wakeup_const. Qed.
 
-(* ... refuted for the code as it is: AdjustCapacity raising the capacity wakes nobody (F-C29b) *)
+(* ... refuted for the variant before fix 2748241c: AdjustCapacity raising the capacity woke nobody (F-C29b) *)
 Theorem C29_no_lost_wakeup_refuted :
   exists s, qreach false s /\ q_users s <> [] /\ q_active s < q_max s.
 Proof. exact lost_wakeup_refuted. Qed.
@@ -82,9 +87,9 @@ Theorem C29_capacity_accounting :
   q_active (fst (qrun fx s ops)) = q_active s + grants (concat (snd (qrun fx s ops))) - releases ops.
 Proof. exact run_accounting. Qed.
 
-(* "never grants a user twice while another user that was already waiting is still waiting": from any
-   reachable state, over any schedule during which user B keeps waiting and is not served, every other
-   user A is served at most once (fast path included) *)
+(* "never grants a user twice while another user that was already waiting is still waiting": in the
+   current code, from any reachable state, over any schedule (AdjustCapacity included) during which user
+   B keeps waiting and is not served, every other user A is served at most once (fast path included) *)
 Theorem C29_round_robin_no_double_grant :
   forall s ops A B,
   qreach true s -> qvalid true s ops -> A <> B -> waits_through true B s ops ->
@@ -99,12 +104,49 @@ Theorem C29_round_robin_constant_capacity :
   (grants_to A (concat (snd (qrun false s ops2))) <= 1)%nat.
 Proof. exact round_robin_const. Qed.
 
-(* ... refuted for the code as it is after a capacity increase: late arrivals take the fast path past
-   the users that are waiting (consequence of F-C29b) *)
+(* ... refuted for the pre-fix variant after a capacity increase: late arrivals took the fast path past
+   the users that were waiting (consequence of F-C29b) *)
 Theorem C29_round_robin_refuted :
   exists s ops A B, qreach false s /\ qvalid false s ops /\ A <> B /\ waits_through false B s ops /\
     grants_to A (concat (snd (qrun false s ops))) = 2%nat.
 Proof. exact round_robin_refuted. Qed.
+
+
+(* the model's AdjustCapacity for the current code is the committed loop
+     for q.activeQuery < q.maxActiveQuery && q.waitingUsersByPriority.Len() > 0 { q.nextQueryLocked() }
+   ([adjust_loop], run with the number of waiting queries as fuel), and that fuel suffices: at the end the
+   loop condition is false *)
+Theorem C29_adjust_capacity_is_committed_loop :
+  forall s n, qreach true s ->
+  let s1 := {| q_active := q_active s; q_max := n; q_users := q_users s; q_order := q_order s; q_next := q_next s |} in
+  qstep true s (QAdjust n) = adjust_loop (waiting_count (q_users s)) s1 /\
+  (0 <= n -> adjust_cond (fst (qstep true s (QAdjust n))) = false).
+Proof. exact adjust_is_committed_loop. Qed.
+
+(* "never leaks capacity through cancellations", the part about whole histories: every Acquire call gets
+   at most one outcome — over any history from the empty queue the calls that returned (nil or error)
+   are pairwise different: a query is granted at most once, a cancelled query is never granted (before or
+   afterwards), never both error and grant.  Any schedule, protocol respected or not, either variant. *)
+Theorem C29_one_outcome_per_call :
+  forall fx m ops, NoDup (oids (concat (snd (qrun fx (qinit m) ops)))).
+Proof. exact one_outcome_per_call. Qed.
+
+Theorem C29_outcomes_exclusive :
+  forall fx m ops,
+  let es := concat (snd (qrun fx (qinit m) ops)) in
+  (forall t q, In (QGranted t q) es -> ~ In (QCancelled q) es) /\
+  (forall t t' q l1 l2, es = l1 ++ QGranted t q :: l2 -> ~ In (QGranted t' q) l1 /\ ~ In (QGranted t' q) l2).
+Proof. exact outcomes_exclusive. Qed.
+
+(* round-robin fairness as a bound (starvation freedom): with constant capacity (active <= max at the
+   start, only Acquire and Release steps: no AdjustCapacity, no cancellations) a user B that keeps waiting
+   unserved sees at most [rank B s] releases, the number of waiting users of other tokens whose order is
+   not after B's — after that many releases the next one serves B *)
+Theorem C29_starvation_bound :
+  forall s ops B,
+  qreach true s -> q_active s <= q_max s -> qvalid true s ops -> forallb acq_or_rel ops = true ->
+  waits_through true B s ops -> releases ops <= Z.of_nat (rank B s).
+Proof. exact starvation_bound. Qed.
 
 (* ------------------------------- weighted semaphore ------------------------------- *)
 
@@ -152,6 +194,27 @@ Theorem C29_sem_cancel_waiter :
   exists pre, wremove w (s_waiters s) = pre ++ s_waiters s' /\ s_cur s' = s_cur s + wsum pre /\
               evs = SCancelled w :: map SGranted (map fst pre).
 Proof. exact cancel_waiter. Qed.
+
+
+(* no lost wake-up in the semaphore, for positive weights: in every reachable state the front waiter does
+   not fit (so FIFO never leaves a servable front waiter blocked).  Weight 0 is the one exception, see the
+   remark below. *)
+Theorem C29_sem_no_lost_wakeup_positive :
+  forall s, sreach s ->
+  match s_waiters s with (_, n) :: _ => 0 < n -> s_size s - s_cur s < n | [] => True end.
+Proof. exact sem_no_lost_wakeup. Qed.
+
+(* REMARK (not a finding): a zero-weight call queued behind a waiter that is cancelled while cur = size
+   stays in the list although it fits; the three semaphore clauses of the property still hold there
+   (nothing is let in over size, nobody is served out of order, the cancellation changes neither cur
+   nor size nor the other waiters), which is why this is recorded as a remark. *)
+Example C29_remark_zero_weight_waiter :
+  let ops := [SAcquire 1; SAcquire 1; SAcquire 0; SCancel 1] in
+  svalid (sinit 1) ops /\
+  snd (srun (sinit 1) ops) = [[SGranted 0]; []; []; [SCancelled 1]] /\
+  s_waiters (fst (srun (sinit 1) ops)) = [(2, 0)] /\
+  s_size (fst (srun (sinit 1) ops)) - s_cur (fst (srun (sinit 1) ops)) = 0.
+Proof. exact zero_weight_waiter_can_stay. Qed.
 
 (* ------------------------------- non-vacuity ------------------------------- *)
 
@@ -202,3 +265,20 @@ Proof.
   change (fst (srun (sinit 3) [SAcquire 2])) with (fst (sstep (sinit 3) (SAcquire 2))).
   apply sreach_step; [constructor|simpl; discriminate].
 Qed.
+
+(* starvation bound: capacity 1 held by user 1, users 2, 3, 4 waiting in that order: user 4 has two users
+   ahead, waits through two releases (user 2 re-queues meanwhile, behind it), the third one serves it *)
+Example C29_nonvacuous_starvation_bound :
+  let s := fst (qrun true (qinit 1) [QAcquire 1; QAcquire 2; QAcquire 3; QAcquire 4]) in
+  let ops := [QRelease; QAcquire 2; QRelease] in
+  rank 4 s = 2%nat /\ q_active s <= q_max s /\ qvalid true s ops /\ waits_through true 4 s ops /\ releases ops = 2 /\
+  snd (qstep true (fst (qrun true s ops)) QRelease) = [QGranted 4 3].
+Proof.
+  vm_compute. repeat split; try (intuition congruence);
+    exists {| u_tok := 4; u_ord := 3; u_qs := [3] |}; (split; [tauto|reflexivity]).
+Qed.
+
+(* one outcome per call on a history with a cancel, grants and a capacity change *)
+Example C29_nonvacuous_outcomes :
+  oids (concat (snd (qrun true (qinit 2) ex_ops))) = [0; 1; 4; 2].
+Proof. vm_compute. reflexivity. Qed.
